@@ -7,8 +7,18 @@ package project
 // One JSON object per line in $VERIF_OUT:
 //   {"t":"cfg","kind":..,"cfg":C,"valid":bool,"werr":bool,"bytes":hex,"lerr":bool,"loaded":C|null,"bytes2":hex}
 //   {"t":"semver","s":hex,"ok":bool}        semver.IsValid(s) && semver.Canonical(s) == s
-//   {"t":"clean","s":hex,"out":hex}         CleanPath(s)
-//   {"t":"ORACLE","name":..,"cfg":C,"bytes":hex,"detail":..}
+//   {"t":"clean","s":hex,"out":hex,"ref":hex}   CleanPath(s); ref = the harness's own definition of the clean form
+//   {"t":"ORACLE","name":..,"cfg":C,"bytes":hex,"detail":..,"from":kind,"orig":C}   (cfg = the shrunk failing configuration)
+//
+// "Valid" (the property's quantifier) is decided WITHOUT the code under test: valid UTF-8, canonical semver by
+// x/mod/semver, and a path in clean form by c19refClean below (path.Clean of the part before the last '@' of the
+// final segment; the suffixes "", v0, v1 are not part of a clean path).  The check ties c19refClean to the Coq
+// model's clean_path on every string it is applied to, so the three definitions (model, reference, CleanPath) agree
+// on the unchanged tree, and a CleanPath that drifts shows up as a valid configuration that does not round-trip.
+//
+// Every string on which a function-level case (semver / clean) is emitted and that lies inside the quantifier is
+// ALSO put into a whole configuration (packed several to a configuration) and goes through the direct oracle; a
+// failing configuration is shrunk (keep-one-item, then remove-one-item) before it is reported.
 // C = {"name":hex,"version":hex,"ignore":[hex..],"reqs":[[namehex,pathhex,versionhex]..]} (reqs sorted by name)
 
 import (
@@ -21,7 +31,9 @@ import (
 	"path/filepath"
 	"reflect"
 	"sort"
+	"path"
 	"strconv"
+	"strings"
 	"testing"
 	"unicode/utf8"
 
@@ -57,6 +69,25 @@ func c19export(c *Config) *c19cfg {
 	return o
 }
 
+// c19refClean: the clean form of a requirement path, written from the documentation of the format and not from
+// version.go: the major-version suffix is what follows the LAST '@' of the FINAL '/'-separated segment; the part
+// before it is cleaned with path.Clean; an empty suffix, "v0" and "v1" are dropped.
+func c19refClean(p string) string {
+	seg := p[strings.LastIndexByte(p, '/')+1:]
+	at := strings.LastIndexByte(seg, '@')
+	if at < 0 {
+		return path.Clean(p)
+	}
+	prefix, major := p[:len(p)-len(seg)+at], seg[at+1:]
+	switch major {
+	case "", "v0", "v1":
+		return path.Clean(prefix)
+	}
+	return path.Clean(prefix) + "@" + major
+}
+
+func c19canonical(v string) bool { return semver.IsValid(v) && semver.Canonical(v) == v }
+
 func c19valid(c *Config) bool {
 	ok := utf8.ValidString(c.Name) && utf8.ValidString(c.Version)
 	for _, g := range c.Ignore {
@@ -64,8 +95,8 @@ func c19valid(c *Config) bool {
 	}
 	for k, r := range c.Requirements {
 		ok = ok && utf8.ValidString(k) && utf8.ValidString(r.Path) && utf8.ValidString(r.Version)
-		ok = ok && semver.IsValid(r.Version) && semver.Canonical(r.Version) == r.Version
-		ok = ok && CleanPath(r.Path) == r.Path
+		ok = ok && c19canonical(r.Version)
+		ok = ok && c19refClean(r.Path) == r.Path
 	}
 	return ok
 }
@@ -121,59 +152,186 @@ func TestVerifC19(t *testing.T) {
 	dir := t.TempDir()
 	p1, p2 := filepath.Join(dir, "dawn.toml"), filepath.Join(dir, "dawn2.toml")
 
-	nOracle := 0
-	oracle := func(name string, c *Config, bytes []byte, detail string) {
-		if nOracle < 300 {
-			nOracle++
-			emit(map[string]any{"t": "ORACLE", "name": name, "cfg": c19export(c), "bytes": hex.EncodeToString(bytes), "detail": detail})
-		}
+	// one write -> load -> write pass over the implementation
+	type pass struct {
+		panic      string
+		werr, lerr error
+		b1, b2     []byte
+		loaded     *Config
 	}
-	do := func(kind string, c *Config) {
-		valid := c19valid(c)
-		rec := map[string]any{"t": "cfg", "kind": kind, "cfg": c19export(c), "valid": valid}
+	run := func(c *Config) (r pass) {
 		os.Remove(p1)
 		os.Remove(p2)
-		werr, wp := c19write(p1, c)
-		if wp {
-			rec["panic"] = "write"
-			emit(rec)
-			oracle("write-panics", c, nil, "")
+		var wp, lp bool
+		if r.werr, wp = c19write(p1, c); wp {
+			r.panic = "write"
 			return
 		}
-		rec["werr"] = werr != nil
-		b1, _ := os.ReadFile(p1)
-		rec["bytes"] = hex.EncodeToString(b1)
-		loaded, lerr, lp := c19load(p1)
-		if lp {
-			rec["panic"] = "load"
-			emit(rec)
-			oracle("load-panics", c, b1, "")
+		r.b1, _ = os.ReadFile(p1)
+		if r.loaded, r.lerr, lp = c19load(p1); lp {
+			r.panic = "load"
 			return
 		}
-		rec["lerr"] = lerr != nil
-		rec["loaded"] = c19export(loaded)
-		var b2 []byte
-		if lerr == nil {
-			if err, p := c19write(p2, loaded); err == nil && !p {
-				b2, _ = os.ReadFile(p2)
+		if r.lerr == nil {
+			if err, p := c19write(p2, r.loaded); err == nil && !p {
+				r.b2, _ = os.ReadFile(p2)
 			}
-			rec["bytes2"] = hex.EncodeToString(b2)
+		}
+		return
+	}
+	// the direct oracle of C19; "" = holds (or the configuration is outside the quantifier)
+	verdict := func(c *Config, r pass) (name, detail string) {
+		switch {
+		case r.panic != "":
+			return r.panic + "-panics", ""
+		case !c19valid(c):
+			return "", ""
+		case r.werr != nil:
+			return "valid-config-write-fails", r.werr.Error()
+		case r.lerr != nil:
+			return "valid-config-does-not-load-back", r.lerr.Error()
+		case !c19same(r.loaded, c):
+			lj, _ := json.Marshal(c19export(r.loaded))
+			return "loaded-differs-from-written", string(lj)
+		case string(r.b2) != string(r.b1):
+			return "second-write-differs", hex.EncodeToString(r.b2)
+		}
+		return "", ""
+	}
+	fails := func(c *Config) bool {
+		n, _ := verdict(c, run(c))
+		return n != ""
+	}
+	// shrink a failing configuration: first try to keep a single item, then remove items one at a time while the
+	// oracle keeps failing, then replace the surviving requirement's name/version by plain ones
+	type item struct {
+		kind int // 0 name, 1 version, 2 ignore, 3 requirement
+		s    string
+		r    RequirementConfig
+	}
+	items := func(c *Config) (its []item) {
+		if c.Name != "" {
+			its = append(its, item{kind: 0, s: c.Name})
+		}
+		if c.Version != "" {
+			its = append(its, item{kind: 1, s: c.Version})
+		}
+		for _, g := range c.Ignore {
+			its = append(its, item{kind: 2, s: g})
+		}
+		names := make([]string, 0, len(c.Requirements))
+		for k := range c.Requirements {
+			names = append(names, k)
+		}
+		sort.Strings(names)
+		for _, k := range names {
+			its = append(its, item{kind: 3, s: k, r: c.Requirements[k]})
+		}
+		return
+	}
+	build := func(its []item) *Config {
+		c := &Config{}
+		for _, it := range its {
+			switch it.kind {
+			case 0:
+				c.Name = it.s
+			case 1:
+				c.Version = it.s
+			case 2:
+				c.Ignore = append(c.Ignore, it.s)
+			case 3:
+				if c.Requirements == nil {
+					c.Requirements = map[string]RequirementConfig{}
+				}
+				c.Requirements[it.s] = it.r
+			}
+		}
+		return c
+	}
+	shrink := func(c *Config) *Config {
+		its := items(c)
+		if len(its) > 1 {
+			for _, it := range its {
+				if one := []item{it}; fails(build(one)) {
+					its = one
+					break
+				}
+			}
+		}
+		for again := len(its) > 1; again; {
+			again = false
+			for i := range its {
+				rest := append(append([]item{}, its[:i]...), its[i+1:]...)
+				if fails(build(rest)) {
+					its, again = rest, len(rest) > 1
+					break
+				}
+			}
+		}
+		if len(its) == 1 && its[0].kind == 3 {
+			for _, alt := range []item{{kind: 3, s: "dep", r: RequirementConfig{Path: its[0].r.Path, Version: "v1.2.3"}},
+				{kind: 3, s: "dep", r: its[0].r}, {kind: 3, s: its[0].s, r: RequirementConfig{Path: its[0].r.Path, Version: "v1.2.3"}}} {
+				if fails(build([]item{alt})) {
+					its = []item{alt}
+					break
+				}
+			}
+		}
+		return build(its)
+	}
+
+	nOracle := 0
+	do := func(kind string, c *Config) {
+		r := run(c)
+		rec := map[string]any{"t": "cfg", "kind": kind, "cfg": c19export(c), "valid": c19valid(c)}
+		if r.panic == "" {
+			rec["werr"] = r.werr != nil
+			rec["bytes"] = hex.EncodeToString(r.b1)
+			rec["lerr"] = r.lerr != nil
+			rec["loaded"] = c19export(r.loaded)
+			if r.lerr == nil {
+				rec["bytes2"] = hex.EncodeToString(r.b2)
+			}
+		} else {
+			rec["panic"] = r.panic
 		}
 		emit(rec)
-		if !valid {
+		name, detail := verdict(c, r)
+		if name == "" || nOracle >= 300 {
 			return
 		}
-		switch {
-		case werr != nil:
-			oracle("valid-config-write-fails", c, b1, werr.Error())
-		case lerr != nil:
-			oracle("valid-config-does-not-load-back", c, b1, lerr.Error())
-		case !c19same(loaded, c):
-			lj, _ := json.Marshal(c19export(loaded))
-			oracle("loaded-differs-from-written", c, b1, string(lj))
-		case string(b2) != string(b1):
-			oracle("second-write-differs", c, b1, hex.EncodeToString(b2))
+		nOracle++
+		small, b1 := c, r.b1
+		if nOracle <= 60 { // shrinking costs up to (items^2) passes: only for the first failures
+			if s := shrink(c); !c19same(s, c) {
+				sr := run(s)
+				if n2, d2 := verdict(s, sr); n2 != "" {
+					small, b1, name, detail = s, sr.b1, n2, d2
+				}
+			}
 		}
+		emit(map[string]any{"t": "ORACLE", "name": name, "cfg": c19export(small), "bytes": hex.EncodeToString(b1), "detail": detail,
+			"from": kind, "orig": c19export(c)})
+	}
+
+	// every string that gets a function-level case is remembered, to be put into whole configurations below
+	var pathStrs, verStrs []string
+	seenPath, seenVer := map[string]bool{}, map[string]bool{}
+	emitClean := func(s string) {
+		if seenPath[s] {
+			return
+		}
+		seenPath[s] = true
+		pathStrs = append(pathStrs, s)
+		emit(map[string]any{"t": "clean", "s": c19hx(s), "out": c19hx(CleanPath(s)), "ref": c19hx(c19refClean(s))})
+	}
+	emitSemver := func(s string) {
+		if seenVer[s] {
+			return
+		}
+		seenVer[s] = true
+		verStrs = append(verStrs, s)
+		emit(map[string]any{"t": "semver", "s": c19hx(s), "ok": c19canonical(s)})
 	}
 
 	// ---- string classes (DESIGN section 6, C19) ----
@@ -205,20 +363,20 @@ func TestVerifC19(t *testing.T) {
 
 	// the sub-models, one by one
 	for _, v := range append(append([]string{}, goodV...), badV...) {
-		emit(map[string]any{"t": "semver", "s": c19hx(v), "ok": semver.IsValid(v) && semver.Canonical(v) == v})
+		emitSemver(v)
 	}
 	for _, c := range classes {
-		emit(map[string]any{"t": "semver", "s": c19hx(c.s), "ok": semver.IsValid(c.s) && semver.Canonical(c.s) == c.s})
-		emit(map[string]any{"t": "semver", "s": c19hx("v1.2.3-" + c.s), "ok": semver.IsValid("v1.2.3-"+c.s) && semver.Canonical("v1.2.3-"+c.s) == "v1.2.3-"+c.s})
-		emit(map[string]any{"t": "clean", "s": c19hx(c.s), "out": c19hx(CleanPath(c.s))})
+		emitSemver(c.s)
+		emitSemver("v1.2.3-" + c.s)
+		emitClean(c.s)
 	}
 	for _, p := range append(append([]string{}, goodP...), badP...) {
-		emit(map[string]any{"t": "clean", "s": c19hx(p), "out": c19hx(CleanPath(p))})
+		emitClean(p)
 	}
 	pathAlpha := []string{"a", "/", ".", "@", "v", "2", "1"}
 	var enum func(prefix string, n int)
 	enum = func(prefix string, n int) {
-		emit(map[string]any{"t": "clean", "s": c19hx(prefix), "out": c19hx(CleanPath(prefix))})
+		emitClean(prefix)
 		if n == 0 {
 			return
 		}
@@ -231,6 +389,65 @@ func TestVerifC19(t *testing.T) {
 		maxp = 4
 	}
 	enum("", maxp)
+
+	// major-version suffixes of every length and digit pattern: all one- and two-digit numbers, the three-digit
+	// ones over {0,1,2,9}, longer runs (10..0, 20..0, 9..9, 0..0, 1..1), and suffixes that are not a "v<number>"
+	var majors []string
+	for i := 0; i < 10; i++ {
+		majors = append(majors, fmt.Sprintf("v%d", i))
+		for j := 0; j < 10; j++ {
+			majors = append(majors, fmt.Sprintf("v%d%d", i, j))
+		}
+	}
+	dig := []string{"0", "1", "2", "9"}
+	for _, a := range dig {
+		for _, b := range dig {
+			for _, c := range dig {
+				majors = append(majors, "v"+a+b+c)
+			}
+		}
+	}
+	for n := 3; n <= 8; n++ {
+		z := strings.Repeat("0", n)
+		majors = append(majors, "v1"+z, "v2"+z, "v"+strings.Repeat("9", n+1), "v"+z+"0", "v"+strings.Repeat("1", n+1), "v"+z+"2")
+	}
+	majors = append(majors, "", "v", "V2", "V1", "v2x", "v1x", "v0x", "vx", "x", "latest", "main", "2", "1", "0", "10", "v-1", "v+2", "v1.0", "v2.0.0",
+		"v1.2.3", "v 2", "v2 ", " v2", "w2", "u9", "w", "~", "v\u0662", "\u00e9", "v2\u00e9", "v2'", "v\"2", "v2\n", "v2\x00", "1v", "vv2", "v2v", "v.", ".", "..", "v2.", "-", "v1-", "v0-")
+	for _, m := range majors {
+		emitClean("a@" + m)
+		emitClean("x.y/z-w@" + m)
+	}
+	for _, m := range []string{"v0", "v1", "v2", "v10", "v19", "v20", "v100", "", "v", "b", "latest"} {
+		for _, pre := range []string{"", ".", "..", "/", "/a", "../a", "a/..", "a@b", "a@v2", "a@v1", "a@", "@", "a/@", "@/a", "a@b/c", "a/b/c/d", "\u00e9/\U0001F600", "a b/'c'"} {
+			emitClean(pre + "@" + m)
+		}
+	}
+	// '@' anywhere: every path of one or two segments over these segments, under three kinds of root; a seeded
+	// sample of the three- and four-segment ones
+	segs := []string{"a", "@", "@a", "a@", "a@b", "@v2", "a@v2", "a@v1", "@v1", "@@", "a@@v2", "@a@v3", ".@a", "@.", "..@v2", "v2", "@v10"}
+	roots := []string{"", "/", "../"}
+	for _, root := range roots {
+		for _, s1 := range segs {
+			emitClean(root + s1)
+			for _, s2 := range segs {
+				emitClean(root + s1 + "/" + s2)
+			}
+		}
+	}
+	nseg, _ := strconv.Atoi(os.Getenv("VERIF_NSEG"))
+	if nseg == 0 {
+		nseg = 150
+	}
+	for i := 0; i < nseg; i++ {
+		p := roots[rng.Intn(len(roots))]
+		for k, n := 0, 3+rng.Intn(2); k < n; k++ {
+			if k > 0 {
+				p += "/"
+			}
+			p += segs[rng.Intn(len(segs))]
+		}
+		emitClean(p)
+	}
 
 	// ---- configurations: every class in every position ----
 	req := func(p, v string) RequirementConfig { return RequirementConfig{Path: p, Version: v} }
@@ -281,6 +498,38 @@ func TestVerifC19(t *testing.T) {
 		}
 		do("many-reqs", c)
 	}
+	// ---- every function-level string inside the quantifier, in a whole configuration (packed) ----
+	per, _ := strconv.Atoi(os.Getenv("VERIF_PACK"))
+	if per == 0 {
+		per = 16
+	}
+	var okPaths, okVers []string
+	for _, p := range pathStrs {
+		if utf8.ValidString(p) && c19refClean(p) == p {
+			okPaths = append(okPaths, p)
+		}
+	}
+	for _, v := range verStrs {
+		if utf8.ValidString(v) && c19canonical(v) {
+			okVers = append(okVers, v)
+		}
+	}
+	for i := 0; i < len(okPaths); i += per {
+		c := &Config{Requirements: map[string]RequirementConfig{}}
+		for j := i; j < i+per && j < len(okPaths); j++ {
+			c.Requirements[fmt.Sprintf("p%02d", j-i)] = req(okPaths[j], goodV[j%len(goodV)])
+		}
+		do("packed-paths", c)
+	}
+	for i := 0; i < len(okVers); i += per {
+		c := &Config{Requirements: map[string]RequirementConfig{}}
+		for j := i; j < i+per && j < len(okVers); j++ {
+			c.Requirements[fmt.Sprintf("v%02d", j-i)] = req(okPaths[(7*j)%len(okPaths)], okVers[j])
+		}
+		do("packed-versions", c)
+	}
+	emit(map[string]any{"t": "stats", "path_strings": len(pathStrs), "paths_in_configs": len(okPaths),
+		"version_strings": len(verStrs), "versions_in_configs": len(okVers)})
 	// ---- random configurations ----
 	pool := []string{"a", "b", "Z", "0", "-", "_", ".", " ", "=", "#", "'", "\"", "\\", "\n", "\t", "\r", "\x00", "\x1f", "\x7f", "é", "日", "😀", "/", "*", "[", "]", "{", "}", ",", "\u0085", "�", "u", "n"}
 	rs := func() string {
@@ -312,6 +561,9 @@ func TestVerifC19(t *testing.T) {
 			c.Requirements = map[string]RequirementConfig{}
 			for n := rng.Intn(9); n > 0; n-- {
 				p, v := goodP[rng.Intn(len(goodP))], goodV[rng.Intn(len(goodV))]
+				if rng.Intn(3) == 0 {
+					p = okPaths[rng.Intn(len(okPaths))]
+				}
 				if rng.Intn(12) == 0 {
 					p = badP[rng.Intn(len(badP))]
 				}
